@@ -2,21 +2,25 @@
 
 Every case is one REAL call of `fit` on a real Positive/Complex/DensityMatrix state with
   * a RECORDING optimizer class (torch.optim.SGD subclass) passed through `optimizer=`: at every step() it
-    records lr, a copy of every parameter's .grad and .data before and after the real SGD step;
+    records the lr of every param group, a copy of every parameter's .grad and .data before and after the real step;
   * a RECORDING scheduler class (StepLR subclass) through `scheduler=` (or scheduler=None);
-  * `compute_batch_gradients` and `rbm_am.gibbs_steps` wrapped ON THE INSTANCE: they record
-    (k, samples_batch, neg_batch, bases_batch), the parameters current at that batch, the positive phase
-    (state.positive_phase_gradients evaluated at those parameters), the chain start and the chain end state vk,
-    and the returned gradient vectors;
+  * `compute_batch_gradients` and `rbm_am.gibbs_steps` wrapped ON THE INSTANCE, purely as OBSERVATION points:
+    (samples_batch, neg_batch, bases_batch), the parameters current at that batch, the positive phase
+    (state.positive_phase_gradients evaluated at those parameters), the returned gradient vectors, and whatever
+    Gibbs chains were run (start, number of steps, end state).  Nothing is demanded about how often or in which
+    form these internal methods are called;
   * a recording callback (epoch / batch boundaries).
 
-Property oracle (independent numpy, on what the optimizer saw): for every batch of every epoch
-  grad(rbm_am) == positive_phase - (sum_{v in vk} grad E(v)) / |neg_batch|   (grad E recomputed in numpy),
+Property oracle (independent numpy, on what the optimizer saw): for every optimizer step
+  grad(rbm_am) == positive_phase - (sum_{v in vk} grad E(v)) / |neg_batch|   (grad E recomputed in numpy), where
+      k == 0: vk is the negative batch itself;  k > 0: vk is the end of an observed chain that starts from the
+      negative batch and totals k steps (if the gradient demonstrably uses another observed chain: failing input;
+      if no chain is observable: counted `vk_unobserved`, no verdict on that batch),
   grad(rbm_ph) == positive phase only, each .grad has its parameter's shape and is the right block,
-  vk is the result of the one gibbs_steps(k, neg_batch) call of that batch,
   parameters after step == before - lr*grad (up to one rounding: torch may fuse the multiply-add),
-  parameters are touched by nothing else (bit-identical chain), exactly one optimizer step per batch,
-  scheduler.step exactly once per epoch after the epoch's last optimizer step, lr of epoch e follows StepLR.
+  parameters are touched by nothing else (bit-identical chain), optimizer steps == batches,
+  scheduler steps == epochs, and in the sequence of optimizer/scheduler steps the scheduler step of an epoch
+  follows that epoch's last optimizer step and precedes the next epoch's first; lr of epoch e follows StepLR.
 Correspondence: the extracted Coq model (CDStep.cbg_binary/cbg_purification, vector_to_grads, assign_grads,
   sgd_step, batch_update, run_epochs/steplr) on the captured inputs vs what the implementation did.
 """
@@ -25,15 +29,17 @@ import numpy as np
 import gen
 
 RULE = ("one case = one real fit() run: state type in {positive, complex, density matrix}, nv 1..3(4), nh 1..3, na 1..2, "
-        "N 3..9 samples, pos_batch_size / neg_batch_size equal or different, dividing N or not, k = 0..3, lr from "
-        "{1e-3, 0.05, 0.3, 1.0, log-uniform}, 1..4 epochs, scheduler None or StepLR(step_size 1..3, gamma); a covering grid "
+        "N 1..9 samples (numpy array or torch tensor), pos_batch_size / neg_batch_size equal or different, dividing N or not, "
+        "k = 0..3, lr from {1e-3, 0.05, 0.3, 1.0, log-uniform}, 1..4 epochs run from starting_epoch 1..3, scheduler None or "
+        "StepLR(step_size 1..3, gamma), optimizer_args absent or neutral (momentum=0, weight_decay=0: still plain SGD); a covering grid "
         "(state type x k x batch-size pattern) followed by random draws; parameters from harness/gen.py with non-zero biases, "
         "bases per row from XYZ with at least one all-Z row; non-trivial := pos_batch_size != neg_batch_size and k >= 1 and "
         ">= 2 batches per epoch and (scheduler present with >= 2 epochs)")
 ASSUMPTIONS = [
     "torch.optim.SGD.step with default arguments computes p + (-lr)*grad (possibly fused): compared up to one rounding",
     "positive phase of Complex/DensityMatrix states is taken from state.positive_phase_gradients at the batch's parameters (its correctness is C03); for PositiveWaveFunction it is also recomputed in numpy",
-    "the Gibbs end state vk is taken from the wrapped rbm_am.gibbs_steps (its law is C05)",
+    "for k > 0 the Gibbs end state vk is observed at the wrapped rbm_am.gibbs_steps (its law is C05); an implementation that samples without going through it is not judged on the negative phase for k > 0 (counted vk_unobserved)",
+    "stop requests during fit are not generated here (C12)",
 ]
 
 LAYOUT_B = ["weights", "visible_bias", "hidden_bias"]
@@ -98,18 +104,18 @@ def rand_spec(ctx, kind=None, k=None, pattern=None):
     nv = int(rng.integers(1, 5 if ctx.thorough else 4))
     nh = int(rng.integers(1, 4))
     na = int(rng.integers(1, 3))
-    N = int(rng.integers(3, 10))
+    N = int(rng.integers(1, 10)) if rng.random() < 0.25 else int(rng.integers(3, 10))
     pattern = pattern or str(rng.choice(["equal_div", "equal_nodiv", "neg_smaller", "neg_larger", "neg_default", "single_batch"]))
-    divs = [d for d in range(1, N) if N % d == 0]
+    divs = [d for d in range(1, N + 1) if N % d == 0]
     nodivs = [d for d in range(2, N) if N % d != 0] or [N + 1]
     if pattern == "equal_div":
         pb = int(rng.choice(divs)); nb = pb
     elif pattern == "equal_nodiv":
         pb = int(rng.choice(nodivs)); nb = pb
     elif pattern == "neg_smaller":
-        pb = int(rng.integers(2, N + 1)); nb = int(rng.integers(1, pb))
+        pb = int(rng.integers(2, max(3, N + 1))); nb = int(rng.integers(1, pb))
     elif pattern == "neg_larger":
-        pb = int(rng.integers(1, N)); nb = int(rng.integers(pb + 1, pb + 5))
+        pb = int(rng.integers(1, max(2, N))); nb = int(rng.integers(pb + 1, pb + 5))
     elif pattern == "neg_default":
         pb = int(rng.integers(1, N + 1)); nb = None
     else:
@@ -117,6 +123,9 @@ def rand_spec(ctx, kind=None, k=None, pattern=None):
     k = int(rng.integers(0, 4)) if k is None else k
     lr = float(rng.choice([1e-3, 0.05, 0.3, 1.0, float(np.exp(rng.uniform(np.log(1e-4), np.log(3.0))))]))
     epochs = int(rng.integers(1, 5))
+    starting_epoch = int(rng.choice([1, 1, 1, 2, 3]))
+    optimizer_args = None if rng.random() < 0.75 else {"momentum": 0.0, "weight_decay": 0.0}
+    data_as_tensor = bool(rng.random() < 0.25)
     if rng.random() < 0.7:
         sched = {"step_size": int(rng.integers(1, 4)), "gamma": float(rng.choice([0.5, 0.1, 0.9, 1.5]))}
     else:
@@ -146,6 +155,7 @@ def rand_spec(ctx, kind=None, k=None, pattern=None):
     ph = [np.clip(a, -6, 6) for a in ph] if ph is not None else None
     return {"state": kind, "nv": nv, "nh": nh, "na": na if kind == "dm" else None, "N": N,
             "pos_batch_size": pb, "neg_batch_size": nb, "pattern": pattern, "k": k, "lr": lr, "epochs": epochs,
+            "starting_epoch": starting_epoch, "optimizer_args": optimizer_args, "data_as_tensor": data_as_tensor,
             "scheduler": sched, "data": data.tolist(), "bases": bases,
             "am": gen.plist(*am), "ph": gen.plist(*ph) if ph is not None else None,
             "torch_seed": ctx.torch_seed()}
@@ -168,8 +178,13 @@ def build_state(spec):
 
 
 # ------------------------------------------------------------------------------------------ one fit run
+SPEC_KEYS = ["state", "nv", "nh", "na", "N", "pos_batch_size", "neg_batch_size", "pattern", "k", "lr", "epochs", "scheduler",
+             "data", "bases", "am", "ph", "torch_seed"]
+SPEC_DEFAULTS = {"starting_epoch": 1, "optimizer_args": None, "data_as_tensor": False}
+
+
 def record_fit(ctx, spec, case):
-    """Runs the real fit with recorders; returns (ok, state, events)."""
+    """Runs the real fit with recorders; returns (ok, state, nets, events, init_params)."""
     import torch
     from qucumber.callbacks import CallbackBase
     s = build_state(spec)
@@ -179,7 +194,7 @@ def record_fit(ctx, spec, case):
     class RecSGD(torch.optim.SGD):
         def step(self, closure=None):
             ps = [p for g in self.param_groups for p in g["params"]]
-            rec = {"lr": float(self.param_groups[0]["lr"]), "params": ps, "ngroups": len(self.param_groups),
+            rec = {"lrs": [float(g["lr"]) for g in self.param_groups for _ in g["params"]], "params": ps,
                    "before": [p.data.detach().clone() for p in ps],
                    "grad": [None if p.grad is None else p.grad.detach().clone() for p in ps]}
             out = super().step(closure)
@@ -213,10 +228,14 @@ def record_fit(ctx, spec, case):
 
     orig_cbg = s.compute_batch_gradients
     orig_gibbs = s.rbm_am.gibbs_steps
+    open_cbg = []
 
-    def cbg(k, samples_batch, neg_batch, *rest, **kw):
-        bases_batch = rest[0] if rest else kw.get("bases_batch")
-        rec = {"k": k, "samples": samples_batch.detach().clone(), "neg": neg_batch.detach().clone(),
+    def cbg(*args, **kw):
+        # observation only: accept positional and keyword forms alike
+        names = ["k", "samples_batch", "neg_batch", "bases_batch"]
+        got = dict(zip(names, args)); got.update({n: v for n, v in kw.items() if n in names})
+        samples_batch, neg_batch, bases_batch = got.get("samples_batch"), got.get("neg_batch"), got.get("bases_batch")
+        rec = {"samples": samples_batch.detach().clone(), "neg": neg_batch.detach().clone(),
                "bases": None if bases_batch is None else np.array(bases_batch).copy(),
                "params": [snap(n) for n in nets], "gibbs": []}
         if spec["state"] == "positive":
@@ -225,29 +244,41 @@ def record_fit(ctx, spec, case):
             pos = s.positive_phase_gradients(samples_batch, bases_batch=bases_batch)
         rec["pos"] = [p.detach().clone() for p in pos]
         events.append(("cbg", rec))
-        out = orig_cbg(k, samples_batch, neg_batch, *rest, **kw)
+        open_cbg.append(rec)
+        try:
+            out = orig_cbg(*args, **kw)
+        finally:
+            open_cbg.pop()
         rec["ret"] = [g.detach().clone() for g in out]
         return out
 
-    def gibbs(k, initial_state, overwrite=False):
-        init = initial_state.detach().clone()
-        out = orig_gibbs(k, initial_state, overwrite=overwrite)
-        cur = [e for e in events if e[0] == "cbg"]
-        if cur and "ret" not in cur[-1][1]:
-            cur[-1][1]["gibbs"].append({"k": k, "init": init, "vk": out.detach().clone()})
+    def gibbs(*args, **kw):
+        names = ["k", "initial_state", "overwrite"]
+        got = dict(zip(names, args)); got.update({n: v for n, v in kw.items() if n in names})
+        init = got["initial_state"].detach().clone()
+        out = orig_gibbs(*args, **kw)
+        if open_cbg:
+            open_cbg[-1]["gibbs"].append({"k": int(got["k"]), "init": init, "vk": out.detach().clone()})
         return out
 
     s.compute_batch_gradients = cbg
     s.rbm_am.gibbs_steps = gibbs
     torch.manual_seed(spec["torch_seed"])
-    kw = dict(epochs=spec["epochs"], pos_batch_size=spec["pos_batch_size"], neg_batch_size=spec["neg_batch_size"],
+    se = spec.get("starting_epoch", 1)
+    kw = dict(epochs=se + spec["epochs"] - 1, pos_batch_size=spec["pos_batch_size"], neg_batch_size=spec["neg_batch_size"],
               k=spec["k"], lr=spec["lr"], optimizer=RecSGD, callbacks=[RecCB()])
+    if se != 1:
+        kw["starting_epoch"] = se
+    if spec.get("optimizer_args") is not None:
+        kw["optimizer_args"] = dict(spec["optimizer_args"])
     if spec["scheduler"] is not None:
         kw["scheduler"] = RecStepLR
         kw["scheduler_args"] = dict(spec["scheduler"])
     if spec["state"] != "positive":
         kw["input_bases"] = np.array([list(b) for b in spec["bases"]])
     data = np.array(spec["data"], dtype=float)
+    if spec.get("data_as_tensor"):
+        data = torch.tensor(data, dtype=torch.double)
     init_params = [snap(n) for n in nets]
     ok, _ = ctx.call("fit", case, lambda: s.fit(data, **kw))
     return ok, s, nets, events, init_params
@@ -260,9 +291,35 @@ def tclose(a, b, rtol, atol):
     return bool(np.all(np.abs(a - b) <= rtol * np.maximum(np.abs(a), np.abs(b)) + atol))
 
 
+def same_values(a, b):
+    import torch
+    return tuple(a.shape) == tuple(b.shape) and bool(torch.equal(a.to(torch.double), b.to(torch.double)))
+
+
+def chain_ends(calls, neg, k):
+    """End states of chains of OBSERVED gibbs_steps calls (in call order) that start from the negative batch
+    and total k steps.  k == 0: the negative batch itself, whatever was called."""
+    if k == 0:
+        return [neg]
+    outs = []
+
+    def go(i0, state, steps):
+        if steps == k:
+            if not any(same_values(state, o) for o in outs):
+                outs.append(state)
+            return
+        for i in range(i0, len(calls)):
+            c = calls[i]
+            if c["k"] > 0 and steps + c["k"] <= k and same_values(c["init"], state):
+                go(i + 1, c["vk"], steps + c["k"])
+    go(0, neg, 0)
+    return outs
+
+
 def run_case(ctx, spec, model_every=1):
     import torch
     m = ctx.get_model()
+    spec = dict(SPEC_DEFAULTS, **spec)
     case = dict(spec)
     kind = spec["state"]
     pb, nb_arg = spec["pos_batch_size"], spec["neg_batch_size"]
@@ -272,9 +329,12 @@ def run_case(ctx, spec, model_every=1):
     sched = spec["scheduler"]
     nontriv = (nb != pb and spec["k"] >= 1 and nbatches >= 2 and sched is not None and spec["epochs"] >= 2)
     ctx.case({"state": kind, "nv": spec["nv"], "nh": spec["nh"], "na": spec["na"], "N": N, "pos": pb, "neg": nb_arg,
-              "k": spec["k"], "lr": spec["lr"], "epochs": spec["epochs"], "scheduler": sched, "seed": spec["torch_seed"]},
-             nontrivial=nontriv)
+              "k": spec["k"], "lr": spec["lr"], "epochs": spec["epochs"], "start": spec["starting_epoch"],
+              "scheduler": sched, "seed": spec["torch_seed"]}, nontrivial=nontriv)
     for key in ("state:" + kind, "k:%d" % spec["k"], "pattern:" + spec["pattern"], "epochs:%d" % spec["epochs"],
+                "starting_epoch:%d" % spec["starting_epoch"], "N:%s" % ("1" if N == 1 else "2" if N == 2 else ">=3"),
+                "optimizer_args:" + ("none" if spec["optimizer_args"] is None else "neutral"),
+                "data:" + ("tensor" if spec["data_as_tensor"] else "ndarray"),
                 "scheduler:" + ("none" if sched is None else "steplr%d" % sched["step_size"]),
                 "batches_per_epoch:%d" % nbatches, "neg_vs_pos:" + ("eq" if nb == pb else "lt" if nb < pb else "gt")):
         ctx.count(key)
@@ -288,67 +348,59 @@ def run_case(ctx, spec, model_every=1):
         return
 
     # ---------------------------------------------------------------- protocol: steps per batch / per epoch
-    # expected shape of the recorded history, from the property: per epoch, per batch: cbg then ONE optimizer
-    # step; after the last batch of the epoch ONE scheduler step (if a scheduler was given).
-    per_batch = ["batch_start", "cbg", "opt", "batch_end"]
-    expect = []
-    for e in range(spec["epochs"]):
-        expect.append("epoch_start")
-        for b in range(nbatches):
-            expect += per_batch
-        if sched is not None:
-            expect.append("sched")
-        expect.append("epoch_end")
+    # Epochs and batches are what the user's callback saw; optimizer / scheduler steps are what the objects handed to
+    # fit saw.  Demanded: #optimizer steps == #batches, #scheduler steps == #epochs, and in the sequence of
+    # optimizer/scheduler steps alone: (opt x batches of epoch e, then sched) for e = 1, 2, ...  Nothing is demanded about
+    # the position of scheduler.step relative to on_epoch_end, or of internal calls relative to the batch callbacks.
+    nb_per_epoch = []
+    for ke in kinds:
+        if ke == "epoch_start":
+            nb_per_epoch.append(0)
+        elif ke == "batch_end" and nb_per_epoch:
+            nb_per_epoch[-1] += 1
+    n_epochs = len(nb_per_epoch)
+    n_batches = sum(nb_per_epoch)
     n_opt = kinds.count("opt"); n_sched = kinds.count("sched"); n_cbg = kinds.count("cbg")
-    ctx.require("one optimizer step per batch", n_opt == n_cbg == kinds.count("batch_end"), case,
-                {"optimizer_steps": n_opt, "batches": kinds.count("batch_end"), "cbg_calls": n_cbg})
-    ctx.require("scheduler stepped exactly once per epoch", n_sched == (kinds.count("epoch_end") if sched is not None else 0), case,
-                {"scheduler_steps": n_sched, "epochs": kinds.count("epoch_end")})
-    ctx.require("order: [batch_start cbg opt batch_end]* then scheduler.step then epoch_end", kinds == expect, case,
-                {"got": kinds[:60], "expected": expect[:60]})
-    if kinds != expect:
+    steps = [ke for ke in kinds if ke in ("opt", "sched")]
+    expect = []
+    for e in range(n_epochs):
+        expect += ["opt"] * nb_per_epoch[e] + (["sched"] if sched is not None else [])
+    ok1 = ctx.require("one optimizer step per batch", n_opt == n_batches, case, {"optimizer_steps": n_opt, "batches": n_batches})
+    ok2 = ctx.require("scheduler stepped exactly once per epoch", n_sched == (n_epochs if sched is not None else 0), case,
+                      {"scheduler_steps": n_sched, "epochs": n_epochs})
+    if ok1 and ok2:
+        ctx.require("the scheduler step of an epoch follows that epoch's last optimizer step and precedes the next epoch's first",
+                    steps == expect, case, {"got": steps[:60], "expected": expect[:60]})
+    if steps != expect:
         return
+    if [ke for ke in kinds if ke in ("cbg", "opt")] != ["cbg", "opt"] * n_opt:
+        # the per-batch method named in observe_at was not seen exactly once before each step: cannot learn the batch
+        ctx.count("compute_batch_gradients_not_observed_per_step")
+        return
+    epoch_of_step = [e for e in range(n_epochs) for _ in range(nb_per_epoch[e])]
 
-    # ---------------------------------------------------------------- per batch
+    # ---------------------------------------------------------------- per optimizer step
     layouts = [layout_of(n) for n in nets]
     owner = {}
     for ni, net in enumerate(nets):
         for name, p in named_params(net):
             owner[id(p)] = (ni, name)
     last_after = None
-    epoch = -1
-    sched_steps = 0
     cur = None
-    trace = []          # 0 = optimizer step, 1 = scheduler step
+    trace = [0 if ke == "opt" else 1 for ke in steps]          # 0 = optimizer step, 1 = scheduler step
     lrs = []
-    grads_by_epoch = []
+    grads_by_epoch = [[] for _ in range(n_epochs)]
     bi = 0
     for kind_e, rec in events:
-        if kind_e == "epoch_start":
-            epoch += 1
-            grads_by_epoch.append([])
-        elif kind_e == "sched":
-            sched_steps += 1
-            trace.append(1)
-        elif kind_e == "cbg":
+        if kind_e == "cbg":
             cur = rec
         elif kind_e == "opt":
-            trace.append(0)
-            lrs.append(rec["lr"])
+            epoch = epoch_of_step[bi]
             bcase = dict(case, epoch=epoch + 1, batch_index=bi)
             bi += 1
             c = cur
             par = c["params"]                      # per network, layout order, numpy
-            # -- Gibbs chain: one call, k steps, from the negative batch
-            ctx.require("gibbs_steps called once per batch on rbm_am", len(c["gibbs"]) == 1, bcase, len(c["gibbs"]))
-            if len(c["gibbs"]) != 1:
-                continue
-            g = c["gibbs"][0]
-            ctx.require("gibbs chain runs k steps", g["k"] == spec["k"] and c["k"] == spec["k"], bcase, {"gibbs_k": g["k"], "cbg_k": c["k"]})
-            ctx.require("gibbs chain starts from the negative batch", torch.equal(g["init"], c["neg"].to(g["init"])), bcase)
-            vk = g["vk"].numpy()
             nneg = int(c["neg"].shape[0])
-            # -- expected gradient vectors (numpy)
             pos = [p.numpy() for p in c["pos"]]
             if kind == "positive":
                 pos_np = np_grad_sum(par[0], c["samples"].numpy()) / float(c["samples"].shape[0])
@@ -356,25 +408,73 @@ def run_case(ctx, spec, model_every=1):
                 pos_am = pos_np
             else:
                 pos_am = pos[0]
-            neg_term = np_grad_sum(par[0], vk) / float(nneg)
-            want = [pos_am - neg_term] + [p for p in pos[1:]]
-            scale = [max(1.0, float(np.max(np.abs(pos_am))), float(np.max(np.abs(neg_term))))] + \
-                    [max(1.0, float(np.max(np.abs(p)))) for p in pos[1:]]
             # -- what the optimizer saw
             ctx.require("optimizer holds exactly the state's parameters",
                         sorted(id(p) for p in rec["params"]) == sorted(owner.keys()), bcase)
             seen = {}
-            for p, gr, be, af in zip(rec["params"], rec["grad"], rec["before"], rec["after"]):
+            for p, gr, be, af, lr_p in zip(rec["params"], rec["grad"], rec["before"], rec["after"], rec["lrs"]):
                 if id(p) in owner:
-                    seen[owner[id(p)]] = (p, gr, be, af)
+                    seen[owner[id(p)]] = (p, gr, be, af, lr_p)
+            step_lrs = sorted(set(v[4] for v in seen.values()))
+            lr_step = step_lrs[0] if step_lrs else float("nan")
+            lrs.append(lr_step)
+
+            def flat_seen(ni):
+                out = []
+                for name in layouts[ni]:
+                    v = seen.get((ni, name))
+                    if v is None or v[1] is None or tuple(v[1].shape) != tuple(v[0].shape):
+                        return None
+                    out.append(v[1].numpy().ravel())
+                return np.concatenate(out)
+
+            # -- which chain end state enters the negative phase (observation only; see module docstring)
+            def want_am(vk_t):
+                nt = np_grad_sum(par[0], vk_t.numpy()) / float(nneg)
+                return pos_am - nt, max(1.0, float(np.max(np.abs(pos_am))), float(np.max(np.abs(nt))))
+
+            got_am = flat_seen(0)
+            cands = chain_ends(c["gibbs"], c["neg"], spec["k"])
+            vk_t = None
+            if cands:
+                vk_t = cands[0]
+                if got_am is not None:
+                    for cd in cands:
+                        w, sc = want_am(cd)
+                        if tclose(got_am, w, 1e-9, 1e-12 * sc):
+                            vk_t = cd
+                            break
+            else:
+                used = None
+                if got_am is not None:
+                    for g in c["gibbs"]:
+                        if g["vk"].dim() == 2 and g["vk"].shape[-1] == c["neg"].shape[-1]:
+                            w, sc = want_am(g["vk"])
+                            if tclose(got_am, w, 1e-9, 1e-12 * sc):
+                                used = g
+                                break
+                if used is not None:
+                    # the gradient demonstrably uses an observed chain that is not "k steps from the negative batch"
+                    ctx.require("negative phase uses the states reached by k Gibbs steps from the negative batch", False, bcase,
+                                {"k": spec["k"], "observed_chains": [{"steps": g["k"], "starts_from_neg_batch": same_values(g["init"], c["neg"])}
+                                                                      for g in c["gibbs"]]})
+                else:
+                    ctx.count("vk_unobserved")
+            if vk_t is not None:
+                w, sc = want_am(vk_t)
+                want = [w] + [p for p in pos[1:]]
+                scale = [sc] + [max(1.0, float(np.max(np.abs(p)))) for p in pos[1:]]
+            else:
+                want = [None] + [p for p in pos[1:]]
+                scale = [1.0] + [max(1.0, float(np.max(np.abs(p)))) for p in pos[1:]]
             for ni, net in enumerate(nets):
                 off = 0
                 for name in layouts[ni]:
                     if (ni, name) not in seen:
                         continue
-                    p, gr, be, af = seen[(ni, name)]
+                    p, gr, be, af, lr_p = seen[(ni, name)]
                     num = p.numel()
-                    block = want[ni][off:off + num].reshape(tuple(p.shape))
+                    block = None if want[ni] is None else want[ni][off:off + num].reshape(tuple(p.shape))
                     off += num
                     pc = dict(bcase, network=s.networks[ni], parameter=name)
                     if not ctx.require("every parameter has a gradient at optimizer.step", gr is not None, pc):
@@ -382,16 +482,17 @@ def run_case(ctx, spec, model_every=1):
                     ctx.require(".grad has the parameter's shape", tuple(gr.shape) == tuple(p.shape), pc, {"grad": list(gr.shape), "param": list(p.shape)})
                     if tuple(gr.shape) != tuple(p.shape):
                         continue
-                    what = ("amplitude gradient == positive phase - sum grad E(vk) / |neg_batch| on its own parameter"
-                            if ni == 0 else "phase gradient == positive phase only on its own parameter")
-                    ctx.require(what, tclose(gr.numpy(), block, 1e-9, 1e-12 * scale[ni]), pc,
-                                {"got": gr.numpy().ravel().tolist()[:12], "want": block.ravel().tolist()[:12], "neg_size": nneg,
-                                 "pos_size": int(c["samples"].shape[0])})
+                    if block is not None:
+                        what = ("amplitude gradient == positive phase - sum grad E(vk) / |neg_batch| on its own parameter"
+                                if ni == 0 else "phase gradient == positive phase only on its own parameter")
+                        ctx.require(what, tclose(gr.numpy(), block, 1e-9, 1e-12 * scale[ni]), pc,
+                                    {"got": gr.numpy().ravel().tolist()[:12], "want": block.ravel().tolist()[:12], "neg_size": nneg,
+                                     "pos_size": int(c["samples"].shape[0])})
                     # -- SGD displacement and the untouched-in-between chain
-                    upd = be.numpy() - rec["lr"] * gr.numpy()
-                    tol = 4.5e-16 * (np.abs(be.numpy()) + np.abs(rec["lr"] * gr.numpy()))
+                    upd = be.numpy() - lr_p * gr.numpy()
+                    tol = 4.5e-16 * (np.abs(be.numpy()) + np.abs(lr_p * gr.numpy()))
                     ctx.require("parameters after step == before - lr*grad", bool(np.all(np.abs(af.numpy() - upd) <= tol)), pc,
-                                {"max_err": float(np.max(np.abs(af.numpy() - upd))), "lr": rec["lr"]})
+                                {"max_err": float(np.max(np.abs(af.numpy() - upd))), "lr": lr_p})
                     ctx.count("sgd_bit_exact" if np.array_equal(af.numpy(), upd) else "sgd_one_rounding")
                     prev = init_params[ni][layouts[ni].index(name)] if last_after is None else last_after[(ni, name)]
                     ctx.require("parameters change only through optimizer.step (before == previous after)",
@@ -399,23 +500,24 @@ def run_case(ctx, spec, model_every=1):
                     ctx.require("gradient evaluated at the parameters the step is applied to",
                                 np.array_equal(be.numpy(), par[ni][layouts[ni].index(name)]), pc)
             last_after = {key: v[3].numpy().copy() for key, v in seen.items()}
-            # -- learning rate of this epoch
+            # -- learning rate of this epoch (every param group that holds a parameter of the state)
             lr_want = spec["lr"] if sched is None else steplr_ref(spec["lr"], sched["gamma"], sched["step_size"], epoch)
             ctx.require("lr of epoch e follows the schedule (one scheduler step per completed epoch)",
-                        math.isclose(rec["lr"], lr_want, rel_tol=1e-12) and rec["ngroups"] == 1, bcase,
-                        {"lr": rec["lr"], "want": lr_want, "epoch": epoch + 1, "scheduler_steps_so_far": sched_steps})
-            grads_by_epoch[-1].append(np.concatenate([r.numpy().ravel() for r in c["ret"]]))
+                        bool(step_lrs) and all(math.isclose(x, lr_want, rel_tol=1e-12) for x in step_lrs), bcase,
+                        {"lr": step_lrs, "want": lr_want, "epoch": epoch + 1})
+            grads_by_epoch[epoch].append(np.concatenate([r.numpy().ravel() for r in c["ret"]]))
             # ------------------------------------------------------------ correspondence with the Coq model
             if (bi - 1) % model_every == 0:
-                pos_l = [p.tolist() for p in pos]
-                if kind == "dm":
-                    mg = m.call("cbg_purification", *par[0], pos_l, c["neg"].numpy(), vk)
-                else:
-                    mg = m.call("cbg_binary", *par[0], pos_l, c["neg"].numpy(), vk)
-                ctx.agree_exact("compute_batch_gradients: number of vectors", len(c["ret"]), len(mg), bcase)
-                for ni in range(min(len(mg), len(c["ret"]))):
-                    ctx.agree("compute_batch_gradients[%d]" % ni, c["ret"][ni], mg[ni], bcase, scale=scale[ni])
                 sh = [shapes_of(p) for p in par]
+                if vk_t is not None:
+                    pos_l = [p.tolist() for p in pos]
+                    if kind == "dm":
+                        mg = m.call("cbg_purification", *par[0], pos_l, c["neg"].numpy(), vk_t.numpy())
+                    else:
+                        mg = m.call("cbg_binary", *par[0], pos_l, c["neg"].numpy(), vk_t.numpy())
+                    ctx.agree_exact("compute_batch_gradients: number of vectors", len(c["ret"]), len(mg), bcase)
+                    for ni in range(min(len(mg), len(c["ret"]))):
+                        ctx.agree("compute_batch_gradients[%d]" % ni, c["ret"][ni], mg[ni], bcase, scale=scale[ni])
                 ma = m.call("assign_grads", [r.tolist() for r in c["ret"]], sh)
                 ctx.agree_exact("assign_grads succeeds", True, len(ma) == 1, bcase)
                 if len(ma) == 1:
@@ -432,12 +534,15 @@ def run_case(ctx, spec, model_every=1):
                         continue
                     be_l = [seen[(ni, name)][2].numpy() for name in layouts[ni]]
                     af_l = [seen[(ni, name)][3].numpy() for name in layouts[ni]]
-                    mu = m.call("batch_update", rec["lr"], tens(be_l), sh[ni], c["ret"][ni].tolist())
+                    # one fused rounding is <= 1.2e-16 * (|p| + |lr g|): compare on that scale
+                    sc_u = max(1.0, float(np.max(np.abs(flat_of(be_l)))), float(np.max(np.abs(lr_step * c["ret"][ni].numpy()))) if c["ret"][ni].numel() else 1.0)
+                    mu = m.call("batch_update", lr_step, tens(be_l), sh[ni], c["ret"][ni].tolist())
                     ctx.agree_exact("batch_update succeeds", True, len(mu) == 1, bcase)
                     if len(mu) == 1:
-                        ctx.agree("batch_update %s (structured SGD)" % s.networks[ni], flat_of(af_l), flat_of(untens(mu[0])), bcase, rtol=1e-13, atol=1e-15)
-                    ms = m.call("sgd_step", rec["lr"], flat_of(be_l), c["ret"][ni].tolist())
-                    ctx.agree("sgd_step %s (flat)" % s.networks[ni], flat_of(af_l), ms, bcase, rtol=1e-13, atol=1e-15)
+                        ctx.agree("batch_update %s (structured SGD)" % s.networks[ni], flat_of(af_l), flat_of(untens(mu[0])), bcase,
+                                  rtol=1e-12, atol=2e-15, scale=sc_u)
+                    ms = m.call("sgd_step", lr_step, flat_of(be_l), c["ret"][ni].tolist())
+                    ctx.agree("sgd_step %s (flat)" % s.networks[ni], flat_of(af_l), ms, bcase, rtol=1e-12, atol=2e-15, scale=sc_u)
 
     # ---------------------------------------------------------------- end of run
     final = [snap(n) for n in nets]
@@ -465,7 +570,8 @@ def run_case(ctx, spec, model_every=1):
 
 # ------------------------------------------------------------------------------------------ direct vector_to_grads cases
 def v2g_cases(ctx, n):
-    """vector_to_grads called directly: exact / surplus / short vectors; both sides must accept or reject alike."""
+    """vector_to_grads called directly.  Exact-length vectors: every parameter must receive its slice (oracle + model).
+    Surplus / short vectors: only recorded in the evidence histogram (raises vs accepts, implementation and model)."""
     import torch
     from qucumber.utils.gradients_utils import vector_to_grads
     from qucumber.rbm import BinaryRBM, PurificationRBM
@@ -490,9 +596,14 @@ def v2g_cases(ctx, n):
             raised = False
         except Exception:
             raised = True
-        ctx.agree_exact("vector_to_grads rejects exactly the too-short vectors", raised, len(mr) == 0, case)
-        if L >= total:
-            ctx.require("vector_to_grads accepts a vector with enough entries", not raised, case)
+        # surplus / short vectors never occur inside fit and the property says nothing about them: histogram only
+        ctx.count("v2g:%s:impl_%s:model_%s" % ("exact" if L == total else "surplus" if L > total else "short",
+                                                "raises" if raised else "accepts", "none" if len(mr) == 0 else "some"))
+        if L == total:
+            ctx.require("vector_to_grads accepts a vector of exactly the total parameter count", not raised, case)
+            ctx.agree_exact("vector_to_grads (exact length) succeeds in the model", True, len(mr) == 1, case)
+        else:
+            continue
         if not raised and len(mr) == 1:
             off = 0
             for j, p in enumerate(rbm.parameters()):
@@ -527,7 +638,7 @@ def run(ctx):
     n_random = 4000 if ctx.thorough else 60
     for i in range(n_random):
         if time.time() - t0 > budget:
-            ctx.count("random_cases_cut_by_time_budget")
+            ctx.count("random_cases_skipped_by_time_budget", n_random - i)
             break
         run_case(ctx, rand_spec(ctx), model_every=1 if i % 3 == 0 else 2)
 
@@ -550,11 +661,10 @@ def shrink(ctx, rec):
     case = rec.get("case", {})
     if "data" not in case or "torch_seed" not in case:
         return rec
-    keys = ["state", "nv", "nh", "na", "N", "pos_batch_size", "neg_batch_size", "pattern", "k", "lr", "epochs", "scheduler",
-            "data", "bases", "am", "ph", "torch_seed"]
-    spec = {k: case[k] for k in keys}
+    spec = {k: case[k] for k in SPEC_KEYS}
+    spec.update({k: case.get(k, d) for k, d in SPEC_DEFAULTS.items()})
     best = rec
-    for mod in ({"epochs": 1}, {"epochs": 1, "scheduler": None}):
+    for mod in ({"epochs": 1, "starting_epoch": 1}, {"epochs": 1, "starting_epoch": 1, "scheduler": None}):
         trial = dict(spec, **mod)
         sub = _silent_ctx(ctx)
         try:
@@ -580,10 +690,10 @@ def replay(ctx, rec):
     if case.get("call") == "vector_to_grads":
         v2g_cases(ctx, 40)
         return
-    keys = ["state", "nv", "nh", "na", "N", "pos_batch_size", "neg_batch_size", "pattern", "k", "lr", "epochs", "scheduler",
-            "data", "bases", "am", "ph", "torch_seed"]
-    if all(k in case for k in keys):
+    if all(k in case for k in SPEC_KEYS):
         print("replay of fit:", {k: case[k] for k in ("state", "nv", "nh", "na", "N", "pos_batch_size", "neg_batch_size", "k", "lr", "epochs", "scheduler")})
-        run_case(ctx, {k: case[k] for k in keys})
+        spec = {k: case[k] for k in SPEC_KEYS}
+        spec.update({k: case.get(k, d) for k, d in SPEC_DEFAULTS.items()})
+        run_case(ctx, spec)
     else:
         run(ctx)
